@@ -134,12 +134,30 @@ func (r *run) outerLock(t int, st Step) func() {
 					continue
 				}
 				ot.justified = true // a writer was granted while this reader was inside: it may have been told to stop
-				if ot.rctx.Err() == nil {
+				grace := time.Duration(r.c.GraceMs) * time.Millisecond
+				cause := context.Cause(ot.rctx)
+				switch base := pick(ot.firstW, callAt); {
+				case ot.rctx.Err() == nil:
 					r.viol = append(r.viol, violation{"outer-writer-with-live-reader", fmt.Sprintf("writer %d granted while reader %d is inside with a live context", t, u)})
 					r.abort.Store(true)
-				} else if base := ot.firstW; context.Cause(ot.rctx) == errOuter && grantAt-pick(base, callAt) < time.Duration(r.c.GraceMs)*time.Millisecond {
+				case cause == errOuter && grantAt-base < grace:
 					r.viol = append(r.viol, violation{"outer-writer-before-grace", fmt.Sprintf("writer %d granted at %v although reader %d had not released and the first writer waiting for it called Lock at %v (grace %dms)", t, grantAt, u, ot.firstW, r.c.GraceMs)})
 					r.abort.Store(true)
+				case cause != errOuter && ot.ctx.Err() == nil:
+					// done, not with the configured cause, and its parent is live: cancelled for no stated reason
+					r.viol = append(r.viol, violation{"outer-spurious-cancel", fmt.Sprintf("writer %d granted while reader %d is inside with a context done with cause %v although its parent is live", t, u, cause)})
+					r.abort.Store(true)
+				case cause != errOuter && grantAt-base < grace:
+					// the reader's context ended through its PARENT (the cause is the parent's, not the configured
+					// one): that is neither a release nor a cancellation by the lock, so the writer still has to
+					// wait for the release or for the whole grace period, counted from the call of the first
+					// writer that had to wait for this reader (time.After(grace) is started after that call, and
+					// grantAt is read after Lock returned: on the code as it is grantAt-base >= grace always)
+					r.hist["writer.granted.parent-ended-reader.early"]++
+					r.viol = append(r.viol, violation{"outer-writer-before-grace-parent-ended-reader", fmt.Sprintf("writer %d granted %v after the call of the first writer waiting for reader %d (at %v; granted at %v; grace %dms): reader %d has not released, its context ended through its parent (cause %v, not the configured cause) and the grace period has not elapsed", t, grantAt-base, u, base, grantAt, r.c.GraceMs, u, cause)})
+					r.abort.Store(true)
+				case cause != errOuter:
+					r.hist["writer.granted.parent-ended-reader.after-grace"]++
 				}
 			}
 		} else if w := r.occW[0].Add(1); w != 1 {
@@ -355,6 +373,80 @@ func outerForced(thorough bool) []*Case {
 		// shutdown while a writer waits for the grace period
 		add("shutdown-during-grace", 3, g, lk(0, 0, "r", false), lk(1, 0, "w", false), Step{Do: "close"}, sl(1),
 			ul(1, false, false), ul(0, false, false))
+	}
+	cs = append(cs, outerParentEnded(thorough)...)
+	return cs
+}
+
+// outerParentEnded: readers whose PARENT context ends while they HOLD the read lock and which do not
+// release. Such a reader has neither released nor been cancelled by the lock: a later writer waits
+// for its release or for the whole grace period, exactly as for a reader with a live parent (its
+// context's cause stays the parent's). Orders: parent ends before the writer arrives / while the
+// writer waits (early, middle, just before the end of the grace period) / reader admitted behind a
+// writer; alone or together with readers that release promptly, that stay live, or whose parents
+// end too; the reader releases late, at once, or never (drain); a second writer; shutdown.
+func outerParentEnded(thorough bool) []*Case {
+	var cs []*Case
+	add := func(fam string, n, grace int, steps ...Step) {
+		cs = append(cs, &Case{Prim: "outer", N: n, Keys: 1, GraceMs: grace, Family: fam, Steps: steps})
+	}
+	sl := func(ms int) Step { return Step{Do: "sleep", Ms: ms} }
+	cn := func(t int) Step { return Step{Do: "cancel", T: t} }
+	r := func(t int) Step { return lk(t, 0, "r", false) }
+	w := func(t int) Step { return lk(t, 0, "w", false) }
+	u := func(t int) Step { return ul(t, false, false) }
+	graces := []int{3, 5, 20, 40}
+	if thorough {
+		graces = []int{2, 3, 5, 8, 20, 40, 80, 150}
+	}
+	for _, g := range graces {
+		// the parent ends before the writer arrives; the reader keeps holding past the grace period
+		add("parent-ended-before-writer", 2, g, r(0), cn(0), w(1), sl(g+2), u(1), u(0))
+		// … and never releases by itself (the drain releases it after the writer)
+		add("parent-ended-before-writer", 2, g, r(0), cn(0), sl(1), w(1))
+		// … and releases at once after the writer arrived: then the writer is granted early, rightly
+		add("parent-ended-reader-releases", 2, g, r(0), cn(0), w(1), u(0), u(1))
+		// a second writer after the first one had waited the whole grace period
+		add("parent-ended-two-writers", 3, g, r(0), cn(0), w(1), sl(g+2), u(1), w(2), u(2), u(0))
+		// several readers: one releases promptly, one's parent ended: the writer still waits
+		add("parent-ended-and-prompt-release", 3, g, r(0), r(1), cn(0), w(2), u(1), sl(g+2), u(2), u(0))
+		add("parent-ended-and-prompt-release", 4, g, r(0), r(1), r(2), cn(2), w(3), u(0), u(1), sl(g+2), u(3), u(2))
+		// several readers: some parents ended, one reader stays live until the grace timeout
+		add("parent-ended-some-of-several", 4, g, r(0), r(1), r(2), cn(0), cn(2), w(3), sl(g+2), u(3), u(0), u(1), u(2))
+		// all parents ended
+		add("parent-ended-all-of-several", 4, g, r(0), r(1), r(2), cn(1), cn(0), cn(2), w(3), sl(g+2), u(3), u(2), u(1), u(0))
+		// reader admitted behind a writer, its parent ends while it holds, next writer
+		add("parent-ended-after-queued-admission", 3, g, w(0), r(1), u(0), cn(1), w(2), sl(g+2), u(2), u(1))
+		// the next writer is already queued when the reader is admitted and its parent ends
+		add("parent-ended-writer-already-queued", 3, g, w(0), r(1), w(2), u(0), cn(1), sl(g+2), u(2), u(1))
+		// shutdown while the writer waits for a reader whose parent ended
+		add("parent-ended-shutdown-during-grace", 2, g, r(0), cn(0), w(1), Step{Do: "close"}, sl(1), u(1), u(0))
+	}
+	// the parent ends while the writer is inside its grace period (needs a grace period long enough
+	// to place the cancellation inside it): early, in the middle, just before the end
+	dg := []int{20, 40}
+	if thorough {
+		dg = []int{12, 20, 40, 80, 150}
+	}
+	for _, g := range dg {
+		for _, at := range []int{0, 1, g / 4, g / 2, g - 6, g - 3} {
+			if at < 0 {
+				continue
+			}
+			st := []Step{r(0), w(1)}
+			if at > 0 {
+				st = append(st, sl(at))
+			}
+			st = append(st, cn(0), sl(g-at+2), u(1), u(0))
+			add("parent-ended-during-grace", 2, g, st...)
+			// with a second reader that releases promptly, and a third whose parent stays live
+			st = []Step{r(0), r(1), w(2), u(1)}
+			if at > 0 {
+				st = append(st, sl(at))
+			}
+			st = append(st, cn(0), sl(g-at+2), u(2), u(0))
+			add("parent-ended-during-grace-mixed", 3, g, st...)
+		}
 	}
 	return cs
 }
